@@ -153,10 +153,10 @@ func (a *staleAnalysis) mentionsBaseOffset(e ast.Expr) bool {
 }
 
 var copyingFuncs = map[string]int{ // qualified name -> index of the only argument the result may alias (-1: none)
-	"bytes.Clone":    -1,
-	"bytes.ToLower":  -1,
-	"bytes.ToUpper":  -1,
-	"bytes.Repeat":   -1,
+	"bytes.Clone":            -1,
+	"bytes.ToLower":          -1,
+	"bytes.ToUpper":          -1,
+	"bytes.Repeat":           -1,
 	"jsonwire.AppendQuote":   0,
 	"jsonwire.AppendUnquote": 0,
 }
